@@ -74,6 +74,30 @@ def mid(): return dds.keep("/g/leaf", leaf) + 1
 def outer(): return dds.keep("/g/mid", mid) + dds.load("/g/leaf")
 def top(): return dds.keep("/g/outer", outer)
 ''',
+    "two_level_shared_helper": '''
+def u(): return 1
+def base(): return dds.keep("/g/u", u) + 1
+def summary(): return base() * 2
+def v1(): return summary() + 1
+def v2(): return summary() + 2
+def top(): return dds.keep("/g/v1", v1) + dds.keep("/g/v2", v2)
+''',
+    "shared_helper_three_parents": '''
+def u(): return 1
+def w(): return 5
+def base(): return dds.keep("/g/u", u) + dds.keep("/g/w", w)
+def mid(): return base() + 1
+def outer(): return mid() + 1
+def a(): return outer() + 1
+def b(): return mid() + 2
+def c(): return base() + 3
+def top(): return dds.keep("/g/a", a) + dds.keep("/g/b", b) + dds.keep("/g/c", c)
+''',
+}
+# hand-written ground truth of the solid edges for the shapes where a helper is shared through non-kept functions
+SOLID = {
+    "two_level_shared_helper": {("/g/u", "/g/v1"), ("/g/u", "/g/v2")},
+    "shared_helper_three_parents": {(x, y) for x in ("/g/u", "/g/w") for y in ("/g/a", "/g/b", "/g/c")},
 }
 # ground truth written from the source text of the shapes (independent of what the analysis reports): the dashed edges
 DASHED = {
@@ -83,6 +107,8 @@ DASHED = {
     # the name `mid` inside dds.keep("/g/mid", mid) is itself analysed as a (non-kept) reference to mid, so outer reaches
     # the keep of /g/leaf without crossing a kept function: the pair has a solid edge, and an ordered pair carries one edge
     "load_of_grandchild_keep": set(),
+    "two_level_shared_helper": set(),
+    "shared_helper_three_parents": set(),
 }
 
 
@@ -194,6 +220,8 @@ def main():
                 violations.append({"what": "[%s] solid edges %s, expected %s" % (name, sorted(solid), sorted(ss))})
             if dashed != sd:
                 violations.append({"what": "[%s] dashed edges %s, expected %s" % (name, sorted(dashed), sorted(sd))})
+            if name in SOLID and solid != SOLID[name]:
+                violations.append({"what": "[%s] solid edges %s, the source text gives %s" % (name, sorted(solid), sorted(SOLID[name]))})
             if dashed != DASHED[name]:
                 violations.append({"what": "[%s] dashed edges %s, the source text has these loads by kept functions: %s" % (name, sorted(dashed), sorted(DASHED[name]))})
             if not acyclic(solid | dashed | dotted):
